@@ -187,7 +187,7 @@ def _gf(frac, nf):
 def _crystal_summary(c, nf, u):
     import numpy as np
     d = np.asarray(c.unit_cell.direct, dtype=float)
-    gram = [[round(float(x) / (u * u), 5) for x in row] for row in d @ d.T]
+    gram = [[round(float(x) / (u * u), 5) + 0.0 for x in row] for row in d @ d.T]      # + 0.0: -0.0 and 0.0 are one answer
     return {"sg": int(c.space_group.international_tables_number),
             "ops": sorted(int(s.integer_code) for s in c.space_group.symmetry_operations), "gram": gram,
             # atoms modulo the lattice, on the grid (rounding noise such as -1e-17 must not become 0.99999...)
